@@ -123,3 +123,50 @@ def overlap_scenes(tier):
                                                        {'h': 1000. + gap, 'n': 30, 'pattern': 'rampup', 'where': 'first'},
                                                        {'h': 9000., 'n': 12, 'where': 'first'})))
     return out
+
+
+def disordered_scenes(tier=None):
+    """Hit types NOT ordered in height (accepted input): first hit high, second/third hits low, with an MSA in between."""
+    rows = []
+    for i in range(12):
+        dt = 0.0 - 15. * (11 - i)
+        rows += [['a', dt, 9000. + 10 * i, 1], ['a', dt, 1000. + 5 * i, 2]]
+        rows += [['b', dt, 1010. + 5 * i, 1], ['b', dt, 9100., 2]] if i % 3 else [['b', dt, 9100., 1], ['b', dt, 1010. + 5 * i, 2], ['b', dt, 2500., 3]]
+    return [('disordered-types', {'gen': 'rows', 'rows': rows})]
+
+
+def double_split_scenes(tier=None):
+    """Two groups that are BOTH split by the mixture step (three-mode low deck + two-mode high deck, and variants)."""
+    out = []
+    for low in ('modes:180:420', 'modes:420:180', 'modes:125:125', 'trimodal260', 'bimodal400'):
+        for high in ('bimodal500', 'halves400'):
+            out.append(('2split:%s:%s' % (low, high), D({'h': 1000., 'n': 60, 'pattern': low}, {'h': 5000., 'n': 60, 'pattern': high}, T=60)))
+    # a three-component model reduced to two by the min-sep re-merge (any of the three labels may be the one merged away), below a second split group
+    for (d1, d2) in ((200, 500), (500, 200), (150, 600), (600, 150), (230, 330), (330, 230)):
+        for n in (60, 90):
+            out.append(('2split:3to2:%d:%d:%d' % (d1, d2, n), D({'h': 1000., 'n': n, 'pattern': 'modes:%d:%d' % (d1, d2)},
+                                                                 {'h': 5000., 'n': n, 'pattern': 'bimodal500'}, T=n)))
+    return out
+
+
+def streak_scenes(tier=None):
+    """Two sets overlapping in height range: an early THICK deck from which one ceilometer trails a descending streak of hits to BELOW a
+    later, lower, thin layer (> 180 s later, so that the grouping stage's time-height clustering attaches the streak to the upper set)."""
+    out = []
+    for (hi, lo, nstreak, step) in ((1380., 1100., 12, 30.), (1400., 1150., 10, 35.), (1380., 1100., 0, 0.), (1380., 1100., 6, 60.),
+                                    (2380., 2100., 12, 30.)):
+        rows = []
+        for ci, c in enumerate(('a', 'b', 'c', 'd')):
+            for i in range(115):
+                dt = 0.0 - 15. * (114 - i) + ci
+                if i < 62:
+                    h = hi + ((i * 7 + 13 * ci) % 60) * 5.
+                    if ci == 0 and 10 <= i < 10 + nstreak:
+                        h = hi - step * (i - 9)
+                    rows.append([c, dt, h, 1])
+                elif i >= 75:
+                    rows.append([c, dt, lo + ((i + ci) % 3) * 5., 1])
+                else:
+                    rows.append([c, dt, None, 0])
+        out.append(('streak:%g:%g:%d:%g' % (hi, lo, nstreak, step), {'gen': 'rows', 'rows': rows}))
+    return out
